@@ -1,6 +1,6 @@
 (** C18 - Non-asserting and unknown keywords never change a verdict. *)
-From Coq Require Import List NArith ZArith QArith Bool.
-From JS Require Import Str Lit Json Res GoValue Hash Schema CodecBase Codec Env Ann Validate NonAsserting.
+From Coq Require Import List NArith ZArith QArith Bool Permutation.
+From JS Require Import Str Lit Json Res GoValue Hash Schema CodecBase Codec Env Ann Validate NonAsserting Spec SchemaRel SchemaPerm Uri Resolve ResolveRel Decorations.
 Import ListNotations.
 
 (** The evaluation of a schema object reads only the asserting keywords: two schema objects
@@ -19,3 +19,67 @@ Theorem C18_unknown_ignored : forall un k v st,
   mem_str k known_names = false -> apply_member un k v st = Ok st.
 Proof. exact unknown_member_ignored. Qed.
 Print Assumptions C18_unknown_ignored.
+
+(** Globally: two schema trees related by [srel] - equal except for the annotation-only scalar
+    keywords (title, description, $comment, default, deprecated, readOnly, writeOnly, examples,
+    format, contentEncoding, contentMediaType), the unknown keywords (Extra) of every schema object
+    at every depth, and the order of map entries - resolve alike (the same outcome, the same Loader
+    calls, related Resolved values) and give every instance the same verdict.  Adding, removing or
+    changing such keywords anywhere ([C18_decorate]: each setter keeps two trees related, on either
+    side) therefore never changes a verdict.  The subschema-bearing non-asserting keywords
+    (contentSchema, unreferenced $defs / definitions entries) change the shape of the tree and
+    are covered locally ([C18_non_asserting_not_read]) and by the correspondence family decor. *)
+Theorem C18_annotations_resolve : forall re_ok fuel root root' baseURI loader loader',
+  srel root root' -> lrel loader loader' ->
+  rrel resrel (Resolve re_ok fuel root baseURI loader) (Resolve re_ok fuel root' baseURI loader').
+Proof. exact Resolve_srel. Qed.
+Print Assumptions C18_annotations_resolve.
+
+Theorem C18_annotations_verdict : forall re_ok re_match hash fuel root root' baseURI loader loader' e calls,
+  srel root root' -> lrel loader loader' ->
+  Resolve re_ok fuel root baseURI loader = Ok (e, calls) ->
+  exists e', Resolve re_ok fuel root' baseURI loader' = Ok (e', calls) /\
+    forall n inst b, gv_wf inst = true -> isValidSchemaVersion (e_version e) = true ->
+      spec_valid re_match n e (den inst) = Some b ->
+      Validate re_match hash n e inst = Validate re_match hash n e' inst.
+Proof. exact Resolve_Validate_map_order. Qed.
+Print Assumptions C18_annotations_verdict.
+
+Theorem C18_decorate : forall s s', srel s s' ->
+  (forall x, srel (set_title x s) s') /\ (forall x, srel (set_description x s) s') /\ (forall x, srel (set_comment x s) s') /\
+  (forall x, srel (set_default x s) s') /\ (forall x, srel (set_deprecated x s) s') /\ (forall x, srel (set_readOnly x s) s') /\
+  (forall x, srel (set_writeOnly x s) s') /\ (forall x, srel (set_examples x s) s') /\ (forall x, srel (set_format x s) s') /\
+  (forall x, srel (set_contentEncoding x s) s') /\ (forall x, srel (set_contentMediaType x s) s') /\ (forall x, srel (set_extra x s) s') /\
+  (forall x, srel s (set_title x s')) /\ (forall x, srel s (set_description x s')) /\ (forall x, srel s (set_comment x s')) /\
+  (forall x, srel s (set_default x s')) /\ (forall x, srel s (set_deprecated x s')) /\ (forall x, srel s (set_readOnly x s')) /\
+  (forall x, srel s (set_writeOnly x s')) /\ (forall x, srel s (set_examples x s')) /\ (forall x, srel s (set_format x s')) /\
+  (forall x, srel s (set_contentEncoding x s')) /\ (forall x, srel s (set_contentMediaType x s')) /\ (forall x, srel s (set_extra x s')).
+Proof.
+  intros s s' H. repeat match goal with |- _ /\ _ => split end; intros y;
+    first [ now apply srel_set_title | now apply srel_set_description | now apply srel_set_comment | now apply srel_set_default
+          | now apply srel_set_deprecated | now apply srel_set_readOnly | now apply srel_set_writeOnly | now apply srel_set_examples
+          | now apply srel_set_format | now apply srel_set_contentEncoding | now apply srel_set_contentMediaType | now apply srel_set_extra
+          | now apply srel_set_title_r | now apply srel_set_description_r | now apply srel_set_comment_r | now apply srel_set_default_r
+          | now apply srel_set_deprecated_r | now apply srel_set_readOnly_r | now apply srel_set_writeOnly_r | now apply srel_set_examples_r
+          | now apply srel_set_format_r | now apply srel_set_contentEncoding_r | now apply srel_set_contentMediaType_r | now apply srel_set_extra_r ].
+Qed.
+Print Assumptions C18_decorate.
+
+(** non-vacuity: {"properties": {"a": {"type": "integer"}}} and the same tree with a title at the
+    root, a description and an unknown keyword on the property are related *)
+Lemma srel_empty18 : srel empty_schema empty_schema.
+Proof. constructor; try reflexivity; constructor. Qed.
+Example C18_decorated_example :
+  let leaf := set_type (lit "integer"%lit) empty_schema in
+  let plain := set_properties (Some [(lit "a"%lit, leaf)]) empty_schema in
+  let decorated := set_title (lit "t"%lit)
+                     (set_properties (Some [(lit "a"%lit, set_description (lit "d"%lit) (set_extra (Some [(lit "x-note"%lit, GInt 1%Z)]) leaf))]) empty_schema) in
+  srel plain decorated.
+Proof.
+  cbn zeta. apply srel_set_title_r.
+  constructor; try reflexivity; try (constructor; fail).
+  constructor. split; [repeat constructor; cbn; intuition|].
+  eexists. split; [apply Permutation_refl|]. constructor; [|constructor]. split; [reflexivity|]. cbn [snd].
+  apply srel_set_description_r, srel_set_extra_r.
+  constructor; try reflexivity; constructor.
+Qed.
